@@ -277,7 +277,7 @@ func genC04Plan(rt *rapid.T) fPlan {
 			op := &p.Callers[ci][oi]
 			for k := range op.Cmds {
 				op.Cmds[k].Plan = nil
-				if hang && !hangDone && op.Kind != "block" && rapid.IntRange(0, 3).Draw(rt, "hangHere") == 0 {
+				if hang && !hangDone && op.Kind != "block" && !(ci == 0 && oi == 0) && rapid.IntRange(0, 3).Draw(rt, "hangHere") == 0 {
 					op.Cmds[k].Plan = []string{"hang"}
 					hangDone = true
 				}
@@ -289,6 +289,13 @@ func genC04Plan(rt *rapid.T) fPlan {
 				op.CancelUs = rapid.SampledFrom([]int{20000, 100000, 400000}).Draw(rt, "recvFor")
 			}
 		}
+	}
+	if hang && rapid.Bool().Draw(rt, "blockingOnPipelineFirst") {
+		// before the peer hangs, the pipeline connection serves a blocking command (ToPipe) that ends with a nil or an
+		// error reply: the keep-alive check, which pauses while a blocking command is pending, must be armed again
+		first := &p.Callers[0][0]
+		first.GapUs, first.Kind, first.Key = 0, "blockpipe", ""
+		first.Cmds = []fCmd{{UID: "ubp", Class: "write", Plan: []string{rapid.SampledFrom([]string{"nil", "err", "ok"}).Draw(rt, "blockPipeOutcome")}}}
 	}
 	if !hang && rapid.IntRange(0, 2).Draw(rt, "internalFault") == 0 {
 		// the connection drops at a step of the client's own protocol (between an unsubscribe confirmation and the
@@ -491,6 +498,10 @@ func genC05Plan(rt *rapid.T) fPlan {
 				op.CancelUs = rapid.SampledFrom([]int{1, 200, 5000, 50000}).Draw(rt, "cancel05")
 			case 3:
 				op.DoneCtx = true
+			case 4:
+				// both: cancelled by hand long before its deadline
+				op.CancelUs = rapid.SampledFrom([]int{200, 5000, 50000}).Draw(rt, "cancel05b")
+				op.DeadlineUs = op.CancelUs * rapid.SampledFrom([]int{20, 100}).Draw(rt, "deadlineFactor")
 			}
 		}
 	}
@@ -541,7 +552,9 @@ func TestVerif_C05_Deadlines(t *testing.T) {
 						c.Fail(rt, "C05.done-context-sends-nothing", fmt.Sprintf("%s position %d with a done context returned %v", where, i, rr.Error()), plan)
 					}
 				}
-			case op.DeadlineUs > 0:
+			// A context with a deadline that is also cancelled by hand: the cancel must be honoured where the call is served
+			// by an auto-pipelined connection (AlwaysPipelining); a connection in synchronous mode only arms the deadline.
+			case op.DeadlineUs > 0 && !(op.CancelUs > 0 && op.Kind != "block" && plan.Cfg.Pipelining):
 				if cut && took >= int64(op.DeadlineUs) {
 					nt = true
 				}
